@@ -499,7 +499,13 @@ class Model:
                     src = getval(kn["source"])
                     if isinstance(src, tuple) or isinstance(kn["prev"], tuple):
                         raise TypeError("model: a linear knob needs a numeric source")
-                    return self.val[loc] + kn["weights"][j] * (src - kn["prev"])
+                    # one increment per entry of the knob's target list that names this location (a location may be
+                    # driven through several weights), applied one after the other as the knob does
+                    v = self.val[loc]
+                    for jj, t in enumerate(kn["targets"]):
+                        if t == loc:
+                            v = v + kn["weights"][jj] * (src - kn["prev"])
+                    return v
                 return self.val[loc]
             return self.val[loc]
 
@@ -731,7 +737,7 @@ def _apply(m, op):
             raise ModelReject("task name in use")
         if source not in m.spec.leaf_type or len(source) != 2 or source in m.ft_target or source in m.kn_target:
             raise ModelReject("knob source must be a depth-1 leaf")
-        if not targets or len(set(targets)) != len(targets) or len(weights) != len(targets):
+        if not targets or len(weights) != len(targets):
             raise ModelReject("knob shape")
         ksrc = {k["source"] for k in m.knobs.values()}
         for t in targets:
@@ -744,14 +750,15 @@ def _apply(m, op):
         m.knobs[name] = {"source": source, "weights": tuple(weights), "targets": tuple(targets),
                          "prev": cur[source]}
         for j, t in enumerate(targets):
-            m.kn_target[t] = (name, j)
+            if t not in m.kn_target:
+                m.kn_target[t] = (name, j)
         m.order.append(("k", name))
         return None
     if kind == "unregk":
         name = op[1]
         if name not in m.knobs:
             raise ModelReject("no such knob")
-        for t in m.knobs[name]["targets"]:
+        for t in set(m.knobs[name]["targets"]):
             del m.kn_target[t]
         del m.knobs[name]
         m.order.remove(("k", name))
